@@ -1,6 +1,7 @@
 """C16 with the real limits: histories with amounts around 2^31, 2^32, 2^63, 2^64 recorded from CountingBloomFilter and
 CountMinSketch (limit constants untouched) and validated by TLC in arbitrary-precision limb arithmetic (spec/TraceSat.tla)."""
 import json
+import os
 import random as _random
 import struct
 
@@ -33,6 +34,7 @@ def record(seed, ntraces, nev, nwide=0):
     cmm.INT32_T_MAX, cmm.INT32_T_MIN, cmm.INT64_T_MAX, cmm.INT64_T_MIN = C.INT32_T_MAX, C.INT32_T_MIN, C.INT64_T_MAX, C.INT64_T_MIN
     rnd = _random.Random(seed)
     traces = []
+    tmpdir = tlc.new_scratch("sat")
     keys = ["a", "b", "c"]
     for ti in range(ntraces):
         kind = "cbloom" if ti % 2 == 0 else "cms"
@@ -136,8 +138,19 @@ def record(seed, ntraces, nev, nwide=0):
             ev["total"] = num(obj.elements_added)
             try:
                 data = bytes(obj)
-                g = type(obj).frombytes(data, hash_function=hf)
-                ev["rt"] = bytes(g) == data and g.elements_added == obj.elements_added
+                ch = rnd.choice(["bytes", "bytes", "file"] + (["hex"] if kind == "cbloom" else []))
+                if ch == "bytes":
+                    g = type(obj).frombytes(data, hash_function=hf)
+                elif ch == "hex":
+                    g = type(obj)(hex_string=obj.export_hex(), hash_function=hf)
+                else:
+                    path = os.path.join(tmpdir, "rt.dat")
+                    obj.export(path)
+                    g = type(obj)(filepath=path, hash_function=hf)
+                # the reloaded structure exports alike, counts alike and answers alike (a cell at or beyond 2^31 must not come back negative)
+                ev["rt"] = bytes(g) == data and g.elements_added == obj.elements_added and all(g.check(k) == obj.check(k) for k in keys) and cells_of(g) == cells_of(obj)
+                if ev["rt"] and rnd.random() < 0.3:
+                    obj = g          # the history continues on the reloaded object (identity for the model)
             except Exception as exc:  # noqa
                 ev["rt"] = False
                 ev["error"] = repr(exc)
